@@ -84,6 +84,7 @@ func c10RetryScenario(c c10RetryCase) *vsched.Scenario {
 		timeouts := 0
 		var lastT time.Duration
 		var lastWasTimeout bool
+		var prevWait time.Duration
 		cancelled := false
 		want := ""
 		for _, e := range x.Log {
@@ -95,11 +96,14 @@ func c10RetryScenario(c c10RetryCase) *vsched.Scenario {
 					bad("C10:retry:read-after-done", "ReadFrom called after the outcome %q was determined", want)
 				}
 				if lastWasTimeout {
-					// wait before this read = (index of the previous timeout) * 50ms
-					w := time.Duration(timeouts-1) * 50 * time.Millisecond
-					if got := e.T - lastT; got != w {
-						bad("C10:retry:back-off", "read after timeout %d came %s later, want %s", timeouts, got, w)
+					// "with increasing back-off": the wait before each retry is longer than the
+					// one before the previous retry (the values themselves are not stated; the
+					// implementation's are 0, 50, 100, 150 ms).
+					got := e.T - lastT
+					if timeouts >= 2 && got <= prevWait {
+						bad("C10:retry:back-off", "the retry after timeout %d waited %s, the one before it %s: the back-off must increase", timeouts, got, prevWait)
 					}
+					prevWait = got
 				}
 				lastT, lastWasTimeout = e.T, false
 				switch e.Detail {
